@@ -23,6 +23,9 @@ sys.dont_write_bytecode = True
 _real_open = builtins.open
 _real_walk = os.walk
 _real_makedirs = os.makedirs
+_real_scandir = os.scandir
+_real_listdir = os.listdir
+_real_mkdir = os.mkdir
 
 
 class Seams:
@@ -53,6 +56,57 @@ def sim_walk(top, *args, **kwargs):
             rng.shuffle(dirs)       # in place: steers the top-down traversal
             rng.shuffle(files)
         yield root, dirs, files
+
+
+def _order_rng(path, n):
+    try:
+        base = os.path.basename(os.fspath(path).rstrip("/" if isinstance(os.fspath(path), str) else b"/"))
+    except TypeError:
+        base = "?"
+    return random.Random(f"{S.walk_seed}|scan|{base}|{n}")
+
+
+class PermutedScandir:
+    """os.scandir in an order chosen by the simulator (whatever enumerates directories - os.walk, glob,
+    pathlib - sees the permuted order).  Entries are real DirEntry objects."""
+
+    def __init__(self, path):
+        with _real_scandir(path) as it:
+            entries = list(it)
+        entries.sort(key=lambda e: e.name if isinstance(e.name, str) else e.name.decode("utf-8", "replace"))
+        _order_rng(path, len(entries)).shuffle(entries)
+        self._it = iter(entries)
+
+    def __iter__(self):
+        return self
+
+    def __next__(self):
+        return next(self._it)
+
+    def close(self):
+        self._it = iter(())
+
+    def __enter__(self):
+        return self
+
+    def __exit__(self, *exc):
+        self.close()
+        return False
+
+
+def sim_scandir(path="."):
+    if S.walk_seed is None or isinstance(path, int):
+        return _real_scandir(path)
+    return PermutedScandir(path)
+
+
+def sim_listdir(path="."):
+    names = _real_listdir(path)
+    if S.walk_seed is None or isinstance(path, int):
+        return names
+    names.sort()
+    _order_rng(path, len(names)).shuffle(names)
+    return names
 
 
 class TornFile:
@@ -102,6 +156,9 @@ def sim_open(file, mode="r", *args, **kwargs):
     return _real_open(file, mode, *args, **kwargs)
 
 
+_in_makedirs = [0]
+
+
 def sim_makedirs(name, *args, **kwargs):
     idx = S.n_mkdir
     S.n_mkdir += 1
@@ -109,7 +166,23 @@ def sim_makedirs(name, *args, **kwargs):
     if f and f["kind"] == "oserror_mkdir" and f["at"] == idx:
         S.fired = f["kind"]
         raise OSError(errno.EACCES, "simulated permission error", str(name))
-    return _real_makedirs(name, *args, **kwargs)
+    _in_makedirs[0] += 1
+    try:
+        return _real_makedirs(name, *args, **kwargs)
+    finally:
+        _in_makedirs[0] -= 1
+
+
+def sim_mkdir(path, *args, **kwargs):
+    """Directory creation that does not go through os.makedirs (pathlib's Path.mkdir) meets the same fault."""
+    if not _in_makedirs[0]:
+        idx = S.n_mkdir
+        S.n_mkdir += 1
+        f = S.fault
+        if f and f["kind"] == "oserror_mkdir" and f["at"] == idx:
+            S.fired = f["kind"]
+            raise OSError(errno.EACCES, "simulated permission error", str(path))
+    return _real_mkdir(path, *args, **kwargs)
 
 
 def install():
@@ -117,6 +190,9 @@ def install():
     io.open = sim_open
     os.walk = sim_walk
     os.makedirs = sim_makedirs
+    os.scandir = sim_scandir
+    os.listdir = sim_listdir
+    os.mkdir = sim_mkdir
 
 
 def digest_dir(d):
